@@ -103,6 +103,7 @@ type Failure struct {
 
 // Verdict of executing one case.
 type Verdict struct {
+	HB         bool             `json:"hb,omitempty"` // heartbeat line (progress inside a long case), not a verdict
 	Index      int64            `json:"index"`
 	Failures   []Failure        `json:"failures,omitempty"`
 	Infra      string           `json:"infra,omitempty"` // harness/generator trouble: exit 2
